@@ -351,10 +351,17 @@ def impl(op, a):
         rows = []
         for o in a[1:]:
             k = o[0] if o else 4
-            if k == 0:
-                _set_hdr_attr(h, o[1], o[2])
-            elif k == 1:
-                h.vcf_count = o[2] if o[1] else None
+            try:
+                if k == 0:
+                    _set_hdr_attr(h, o[1], o[2])
+                elif k == 1:
+                    h.vcf_count = o[2] if o[1] else None
+            except ValueError as e:
+                # (the unchanged header classes are plain records: no assignment raises.)  A refused assignment is a row of
+                # its own -- [1, class] instead of [0, fields...] -- and the history goes on with the header as it is
+                from harness import core
+                rows.append([1, core.canon_code(core.classify_exception(e))])
+                continue
             if k == 2:
                 rows.append(_res(h.pack))
             elif k == 3:
@@ -1128,6 +1135,12 @@ def oracle(case, ires, sres):
             return ("C17/determine_header_type/value", "%s -> %s" % (raw, ires))
         return None
     if op == 1606:
+        if err:
+            # a count length outside 0..7 / a count that does not fit it: the unchanged constructor stores anything and pack()
+            # fails later; a constructor that refuses such a header with ValueError is as good
+            if phdr_ok(a[0]) or code not in (1, 2, 3):
+                return ("C17/PrimaryHeader.__init__/refuses-valid", "%s -> %s" % (a[0], ires))
+            return None
         if ires[1] != [7 + a[0][8]]:
             return ("C17/PrimaryHeader.len", "%s -> %s" % (a[0], ires))
         return None
@@ -1217,11 +1230,20 @@ def oracle_hdr_history(a, ires):
         return None
     for n, (o, row) in enumerate(zip(a[1:], ires[1:])):
         k = o[0] if o else 4
+        h0 = list(h)
         if k == 0:
             h[1 + o[1]] = o[2]
         elif k == 1 and h[0] == 1:
             h[10], h[11] = (1, o[2]) if o[1] else (0, 0)
         what = "header %s after %s" % (a[0], a[1:2 + n])
+        if k in (0, 1) and row[0] == 1:
+            # the assignment was refused (ValueError).  Fine when the header it would have produced is none the standard
+            # defines (identifier / length / flag out of range, a count that does not fit its length); the header is then
+            # as before, which the following rows show
+            if hdr_ok(h):
+                return ("C17/header.attributes/refuses-valid", "%s: the assignment was refused although %s is a valid header" % (what, h))
+            h = h0
+            continue
         if k == 2:
             if not ids_ok(h[1:]):
                 if row[0] != 1 or row[1] not in (1, 2, 3):
@@ -1274,6 +1296,12 @@ def oracle_wide_history(a, ires):
                 pos += 1
                 continue
             if k == 12:
+                pos += 1
+                continue
+            if k in (0, 1, 4, 5, 6, 7, 8, 9, 10, 11) and row[1] in (1, 2, 3):
+                # a single assignment refused with ValueError (the unchanged classes refuse only a data zone beyond the
+                # size limit; a stricter library may refuse a field value outside its range): nothing was assigned, the
+                # object is as before -- which the following rows show -- and the history goes on
                 pos += 1
                 continue
             return None
